@@ -14,7 +14,7 @@ from C02_harness import expected_tokens
 ID = 'C15'
 PROGRAMS = {'core': dict(crate='vaporetto', features=['train', 'kytea'], extra=[dict(crate='vaporetto_rules')])}
 UNIT_CAP = 300
-BUDGET_S = {'quick': 270, 'thorough': 2400}
+BUDGET_S = {'quick': 600, 'thorough': 1200}      # wall-clock safety caps (exceeding one is reported as inconclusive); typical quick runs take 1-200 s
 TYPE_LETTERS = 'DRHTKO'
 BOUNDS = {
     'quick': {'wsconst': 'texts of 1..4 symbolic characters (any scalar value) x the six character types x symbolic labels incl. Unknown',
